@@ -73,7 +73,7 @@ Section Sub.
     In s (byref E cf v call N hsup t) -> In s (subvalues v).
   Proof.
     induction v as [z | | z | l | k l xs IH | k l kvs IH | c l fs IH] using lv_ind';
-      intros call N hsup t; induction t as [| lk | | | t' IHt | o t' IHt | t' IHt | ts | o kt IHk vt IHv | c0];
+      intros call N hsup t; induction t as [| lk | | | t' IHt | o t' IHt | t' IHt | ts IHts | o kt IHk vt IHv | c0 | us IHus] using ty_ind';
       intros s Hs; simpl in Hs; try contradiction;
       try (apply in_root in Hs; subst s; apply subvalues_self; fail);
       try (apply IHt; exact Hs; fail);
@@ -122,6 +122,7 @@ Fixpoint anyfree (t: ty) : bool :=
   | TOpt t' | TSeq _ t' | TTupV t' => anyfree t'
   | TTup ts => forallb anyfree ts
   | TMap _ kt vt => anyfree kt && anyfree vt
+  | TUnion ts => forallb anyfree ts
   end.
 
 Definition default_env (E: env) : Prop :=
@@ -150,7 +151,7 @@ Section Default.
     anyfree t = true -> byref E cf v None [] hsup t = [].
   Proof.
     induction v as [z | | z | l | k l xs IH | k l kvs IH | c l fs IH] using lv_ind';
-      intros hsup t; induction t as [| lk | | | t' IHt | o t' IHt | t' IHt | ts | o kt IHk vt IHv | c0];
+      intros hsup t; induction t as [| lk | | | t' IHt | o t' IHt | t' IHt | ts IHts | o kt IHk vt IHv | c0 | us IHus] using ty_ind';
       intros Ha; simpl in Ha; try discriminate Ha; try reflexivity;
       try (simpl; apply IHt; exact Ha; fail).
     - simpl. apply flat_map_nil. eapply Forall_impl; [| exact IH]. intros x Hx. apply Hx. exact Ha.
@@ -177,6 +178,20 @@ Proof.
   apply maxold_nil_all_fresh. rewrite H. apply byref_default_nil; auto.
 Qed.
 
+Lemma pick_nil {A B} (m: A -> bool) (f: A -> list B) (p: A -> bool) us :
+  Forall (fun t => p t = true -> f t = []) us -> forallb p us = true -> pick m f [] us = [].
+Proof.
+  induction 1 as [| t r Ht Hr IH]; intros Hp; simpl in *; [reflexivity |].
+  apply andb_prop in Hp. destruct Hp as [Hp1 Hp2]. destruct (m t); [now apply Ht | now apply IH].
+Qed.
+
+Lemma pick_in {A B} (m: A -> bool) (f: A -> list B) (Q: B -> Prop) us s :
+  Forall (fun t => forall s, In s (f t) -> Q s) us -> In s (pick m f [] us) -> Q s.
+Proof.
+  induction 1 as [| t r Ht Hr IH]; simpl; intros Hs; [contradiction |].
+  destruct (m t); [now apply Ht | now apply IH].
+Qed.
+
 Section DefaultUnpack.
   Variable E : env.
   Hypothesis Hany : anyfree_env E.
@@ -184,8 +199,10 @@ Section DefaultUnpack.
   Lemma anyref_anyfree_nil : forall w t, anyfree t = true -> anyref E w t = [].
   Proof.
     induction w as [z | | z | l | k l xs IH | k l kvs IH | c l fs IH] using lv_ind';
-      intros t; induction t as [| lk | | | t' IHt | o t' IHt | t' IHt | ts | o kt IHk vt IHv | c0];
-      intros Ha; simpl in Ha; try discriminate Ha; try reflexivity;
+      intros t; induction t as [| lk | | | t' IHt | o t' IHt | t' IHt | ts IHts | o kt IHk vt IHv | c0 | us IHus] using ty_ind';
+      intros Ha; simpl in Ha; try discriminate Ha;
+      try (rewrite anyref_union; apply pick_nil with (p := anyfree); [exact IHus | exact Ha]; fail);
+      try reflexivity;
       try (simpl; apply IHt; exact Ha; fail).
     - simpl. apply flat_map_nil. eapply Forall_impl; [| exact IH]. intros x Hx. apply Hx. exact Ha.
     - simpl. apply flat_map_nil. eapply Forall_impl; [| exact IH]. intros x Hx. apply Hx. exact Ha.
@@ -212,8 +229,10 @@ Qed.
 Lemma anyref_sub E : forall w t s, In s (anyref E w t) -> In s (subvalues w).
 Proof.
   induction w as [z | | z | l | k l xs IH | k l kvs IH | c l fs IH] using lv_ind';
-    intros t; induction t as [| lk | | | t' IHt | o t' IHt | t' IHt | ts | o kt IHk vt IHv | c0];
-    intros s Hs; simpl in Hs; try contradiction;
+    intros t; induction t as [| lk | | | t' IHt | o t' IHt | t' IHt | ts IHts | o kt IHk vt IHv | c0 | us IHus] using ty_ind';
+    intros s Hs;
+    try (rewrite anyref_union in Hs; revert Hs; apply pick_in with (Q := fun s => In s (subvalues _)); exact IHus);
+    simpl in Hs; try contradiction;
     try (apply in_root in Hs; subst s; apply subvalues_self; fail);
     try (apply IHt; exact Hs; fail);
     try (destruct Hs as [Hs | []]; subst s; apply subvalues_self; fail).
@@ -252,12 +271,14 @@ Fixpoint optfree (t: ty) : bool :=
   | TSeq _ t' | TTupV t' => optfree t'
   | TTup ts => forallb optfree ts
   | TMap _ kt vt => optfree kt && optfree vt
+  | TUnion ts => forallb optfree ts
   end.
 Definition optfree_env (E: env) : Prop := forall c, forallb optfree (E.(e_ct) c).(c_fields) = true.
 
 Lemma ident_conv_free E N t : optfree t = true -> ident E N t = conv_free E N t.
 Proof.
-  unfold ident. induction t; intros H; simpl in H; try discriminate H; simpl; try reflexivity.
+  unfold ident. induction t as [| k | | | t IHt | o t IHt | t IHt | ts IHts | o t1 IHt1 t2 IHt2 | c0 | us IHus] using ty_ind';
+    intros H; simpl in H; try discriminate H; simpl; try reflexivity.
   - destruct (e_lp E k); reflexivity.
   - unfold seq_expr. rewrite <- (IHt H). destruct (is_id (cp E N false t)).
     + destruct (inN N o); [reflexivity |]. destruct (origin_eqb o OList); reflexivity.
@@ -266,6 +287,10 @@ Proof.
     destruct (is_id (cp E N false t1)); destruct (is_id (cp E N false t2)); simpl;
       try (now rewrite ?andb_false_r).
     destruct (inN N o); [reflexivity |]. destruct (origin_eqb o ODict); reflexivity.
+  - assert (Hf: forallb is_id (map (cp E N false) us) = forallb (conv_free E N) us).
+    { induction IHus as [| x r Hx Hr IHr]; simpl in *; [reflexivity |].
+      apply andb_prop in H. destruct H as [H1 H2]. now rewrite (Hx H1), (IHr H2). }
+    rewrite Hf. destruct (forallb (conv_free E N) us); reflexivity.
 Qed.
 
 Lemma flat_map_ext_Forall {A B} (g h: A -> list B) xs : Forall (fun x => g x = h x) xs -> flat_map g xs = flat_map h xs.
@@ -287,7 +312,7 @@ Section OptFree.
     optfree t = true -> byref E (ident E) v call N hsup t = byref E (conv_free E) v call N hsup t.
   Proof.
     induction v as [z | | z | l | k l xs IH | k l kvs IH | c l fs IH] using lv_ind';
-      intros call N hsup t; induction t as [| lk | | | t' IHt | o t' IHt | t' IHt | ts | o kt IHk vt IHv | c0];
+      intros call N hsup t; induction t as [| lk | | | t' IHt | o t' IHt | t' IHt | ts IHts | o kt IHk vt IHv | c0 | us IHus] using ty_ind';
       intros Ha; simpl in Ha; try discriminate Ha; try reflexivity.
     - simpl. rewrite (ident_conv_free E N t' Ha). destruct (inN N o && conv_free E N t'); [reflexivity |].
       apply flat_map_ext_Forall. eapply Forall_impl; [| exact IH]. intros x Hx. apply Hx. exact Ha.
